@@ -1909,3 +1909,52 @@ Proof.
   rewrite r_eq_step by (intro Ni; apply step_bad_nonret; [apply H; left; reflexivity|exact Ni]). apply IH. intros; apply H; right; assumption.
 Qed.
 
+
+(** the return of a command this half does not look at *)
+Lemma f_ret_np : forall st st2 m t c v,
+  FRel FNone st m -> tcur (thr st t) = Some c -> tcont (thr st t) = [] -> get_tid t (b_cur (m14_b m)) = Some c -> npcmd c ->
+  nthr st2 = nthr st -> pps st2 = pps st -> (forall u, u <> t -> thr st2 u = thr st u) ->
+  tcont (thr st2 t) = [] -> tpipe (thr st2 t) = tpipe (thr st t) -> tcur (thr st2 t) = None ->
+  FRel FNone st2 (m14r_step m (t, ERet v)) /\ m14_bad (m14_step m (t, ERet v)) = m14_bad m.
+Proof.
+  intros st st2 m t c v R Hcu Hc Hg Nc Hn Epp Ho Hc2 Htp2 Hcu2.
+  set (m' := m14r_step m (t, ERet v)).
+  assert (Tp : forall u, tpipe (thr st2 u) = tpipe (thr st u)) by (intro u; destruct (Nat.eq_dec u t) as [->|Y]; [exact Htp2|rewrite Ho; auto]).
+  assert (Wk : forall u, wkr st2 u <-> wkr st u) by (intro u; unfold wkr; rewrite Hn, Tp; tauto).
+  assert (Co : forall u, tcont (thr st2 u) = tcont (thr st u)) by (intro u; destruct (Nat.eq_dec u t) as [->|Y]; [rewrite Hc, Hc2; reflexivity|rewrite Ho; auto]).
+  assert (Mc : mcont st2 = mcont st) by (unfold mcont; apply Co).
+  assert (NotIn : ~ In t (map fst (m14_late m))).
+  { intro Hin. destruct (f_late_in _ _ _ R t Hin) as [[c1 [E1 W1]] _]. rewrite Hcu in E1. inversion E1; subst c1. destruct c; try destruct W1; destruct Nc. }
+  assert (Mf : m14_psend m' = m14_psend m /\ m14_recvd m' = m14_recvd m /\ m14_dropped m' = m14_dropped m /\ m14_late m' = m14_late m /\
+               m14_bad (m14_step m (t, ERet v)) = m14_bad m).
+  { assert (Ab : rm_tid t (m14_late m) = m14_late m) by (apply rm_tid_absent; apply get_tid_none; exact NotIn).
+    unfold m', m14r_step, m14_step. cbn. rewrite Hg, Ab. destruct c; try destruct Nc; destruct v; repeat split; reflexivity. }
+  destruct Mf as [M1 [M2 [M3 [M4 M5]]]]. split; [|exact M5].
+  assert (Sm : f14_same m m') by (constructor; assumption).
+  apply (f_msame _ _ m); [|exact Sm].
+  assert (Rt : forall u, rtransit (thr st2 u) = rtransit (thr st u)).
+  { intro u. destruct (Nat.eq_dec u t) as [->|Hu]; [|rewrite (Ho u Hu); reflexivity]. unfold rtransit. rewrite Hc2, Hc, Hcu2, Hcu. destruct c; try reflexivity. destruct Nc. }
+  constructor.
+  - intros u q x Y. discriminate Y.
+  - intros u q Y. discriminate Y.
+  - rewrite Epp, Mc. apply (f_noex _ _ _ R).
+  - rewrite Epp. apply (f_drop _ _ _ R).
+  - intros u W. rewrite Epp, Tp. apply Wk in W. apply (f_late _ _ _ R u W).
+  - intros u c0 W L Hq. apply Wk in W. destruct (Nat.eq_dec u t) as [->|Hu]; [rewrite Hcu2 in Hq; discriminate Hq|]. rewrite (Ho u Hu) in *. apply (f_ok _ _ _ R u c0 W L Hq).
+  - intros u W. cbn zeta. rewrite Tp, Rt, Epp, Mc. apply Wk in W. apply (f_ps _ _ _ R u W).
+  - intros u m0 q x Hin. destruct (Nat.eq_dec u t) as [->|Hu]; [rewrite Hc2 in Hin; destruct Hin|]. rewrite (Ho u Hu) in *. apply (f_own_send _ _ _ R u m0 q x Hin).
+  - intros u q x Hq. destruct (Nat.eq_dec u t) as [->|Hu]; [rewrite Hcu2 in Hq; discriminate Hq|]. rewrite (Ho u Hu) in *. apply (f_sendret _ _ _ R u q x Hq).
+  - intros u q Hq Np. rewrite Epp. destruct (Nat.eq_dec u t) as [->|Hu]; [rewrite Hcu2 in Hq; discriminate Hq|]. rewrite (Ho u Hu) in *. apply (f_dropcmd _ _ _ R u q Hq Np).
+  - intros u m0 q Hin. rewrite Epp. destruct (Nat.eq_dec u t) as [->|Hu]; [rewrite Hc2 in Hin; destruct Hin|]. rewrite (Ho u Hu) in *. apply (f_own_cs _ _ _ R u m0 q Hin).
+  - intros u L. destruct (Nat.eq_dec u t) as [->|Hu]; [|rewrite (Ho u Hu); apply (f_late_cur _ _ _ R u L)].
+    exfalso. apply NotIn. destruct (in_dec Nat.eq_dec t (map fst (m14_late m))) as [Y|Y]; [exact Y|]. apply get_tid_none in Y. unfold is_late in L. rewrite Y in L. discriminate L.
+  - intros u Hin. destruct (Nat.eq_dec u t) as [->|Hu]; [exfalso; exact (NotIn Hin)|]. rewrite (Ho u Hu). destruct (f_late_in _ _ _ R u Hin) as [A B]. split; [exact A|apply Wk; exact B].
+  - apply (f_late_nd _ _ _ R).
+  - intros u m0 v0 Hin. destruct (Nat.eq_dec u t) as [->|Hu]; [rewrite Hc2 in Hin; destruct Hin|]. rewrite (Ho u Hu) in *.
+    destruct (f_own_ret _ _ _ R u m0 v0 Hin) as [A B]. split; [exact A|]. intros z Ez. destruct (B z Ez) as [B1 B2]. split; [exact B1|apply Wk; exact B2].
+  - intros u j Hin. destruct (Nat.eq_dec u t) as [->|Hu]; [rewrite Hc2 in Hin; destruct Hin|]. rewrite (Ho u Hu) in *.
+    destruct (f_own_pr _ _ _ R u j Hin) as [A [B C]].
+    split; [intros m0 q Y; destruct (A m0 q Y) as [A1' A2']; split; [apply Wk; exact A1'|exact A2']|split;
+      [intros m0 q Y; destruct (B m0 q Y) as [B1 B2]; split; [apply Wk; exact B1|exact B2]|intros m0 q x Y; destruct (C m0 q x Y) as [C1 C2]; split; [apply Wk; exact C1|exact C2]]].
+  - intros u c0 Hq Wc. destruct (Nat.eq_dec u t) as [->|Hu]; [rewrite Hcu2 in Hq; discriminate Hq|]. rewrite (Ho u Hu) in *. apply (f_pr _ _ _ R u c0 Hq Wc).
+Qed.
